@@ -95,9 +95,13 @@ Theorem c11_rsa_thresholds_ca_of_ed25519_cert : forall cat cs, mem cat rsa_famil
 Proof. exact rsa_thresholds_ca_of_ed25519_cert. Qed.
 Theorem c11_ed25519_no_size_note : size_notes "ssh-ed25519" false 256 "" 0 = ([], []).
 Proof. exact ed25519_no_size_note. Qed.
-(* recorded finding: Ed448 keys are rated with the RSA thresholds *)
-Theorem c11_ed448_rated_as_rsa_refuted : fst (size_notes "ssh-ed448" false 448 "" 0) <> [].
-Proof. exact ed448_rated_as_rsa_refuted. Qed.
+(* Ed448 (repaired by af30915): no size note for any size from 256 bits; end to end for every Ed448 key *)
+Theorem c11_ed448_no_size_note : forall s, 256 <= s -> size_notes "ssh-ed448" false s "" 0 = ([], []).
+Proof. exact ed448_no_size_note. Qed.
+Theorem c11_ed448_end_to_end : forall pk f sig, small pk -> pk <> [] -> small (ed448_key_blob pk) -> small f -> small sig ->
+  exists r, parse_reply (reply_payload (ed448_key_blob pk) f sig) = Ok r /\ hostkey_size r = 448
+            /\ size_notes "ssh-ed448" false (hostkey_size r) (r_ca_type r) (ca_size r) = ([], []).
+Proof. exact ed448_end_to_end. Qed.
 (* recorded finding: a key below 2048 bits that is not failed (consequence of c11_rsa_size_refuted) *)
 Theorem c11_rsa_below_2048_fails_refuted :
   exists e n f sig r, rsa_reply_ok e n f sig /\ bitlen n < 2048
@@ -203,6 +207,15 @@ Theorem c11_shown_cert : forall name hks v,
   name +++ " (" +++ z_to_string (hk_size (h_info v)) +++ "-bit cert/" +++ z_to_string (hk_ca_size (h_info v)) +++ "-bit "
        +++ (if mem (hk_ca_type (h_info v)) rsa_family then "RSA" else hk_ca_type (h_info v)) +++ " CA)".
 Proof. exact shown_cert. Qed.
+
+(* JSON (repaired by 13b23e2): keysize for the RSA family and all three RSA certificate names; none for fixed-size keys *)
+Theorem c11_json_keysize_present : forall name hks v,
+  mem name rsa_family = true \/ rsa_cert_type name -> assoc name hks = Some v ->
+  fst (json_key_fields name hks) = Some (hk_size (h_info v)).
+Proof. exact json_keysize_present. Qed.
+Theorem c11_json_keysize_absent_fixed_size : forall name hks, mem name ["ssh-ed25519"; "ssh-ed448"; ed25519_cert_name] = true ->
+  fst (json_key_fields name hks) = None.
+Proof. exact json_keysize_absent_fixed_size. Qed.
 
 (* non-vacuity: the hypotheses of the size theorems are met by concrete keys *)
 Theorem c11_rsa_reply_ok_example : rsa_reply_ok 65537 (2 ^ 2047 + 1) [] [].
